@@ -416,7 +416,8 @@ func c17Embedded(r *rand.Rand, idx int, format int) Case {
 		openFn = func() (k8s.Document, error) { return k8s.JsonDoc(file, item) }
 	default:
 		// properties: every string item of the manifest is a key of the embedded document
-		init["data"] = map[string]any{"app.name": "n", "app.port": "80", "db.host": "h"}
+		init["data"] = map[string]any{"app.name": "n", "app.port": "80", "db.host": "h",
+			"app.rules[0].match": "m0", "app.rules[0].act": "allow", "app.rules[1].match": "m1"}
 		openFn = func() (k8s.Document, error) { return k8s.Properties(file) }
 		if r.Intn(2) == 0 { // one decoder/encoder pair serving every manifest this process opens
 			openFn = func() (k8s.Document, error) {
@@ -440,14 +441,16 @@ func c17Embedded(r *rand.Rand, idx int, format int) Case {
 		cb := doc.Document()
 		if format == 2 {
 			// what was opened is this manifest's items and nothing else (nothing left over from another manifest)
-			if got := nodeToAny(cb); !reflect.DeepEqual(got, any(map[string]any{"app": map[string]any{"name": "n", "port": "80"}, "db": map[string]any{"host": "h"}})) {
+			if got := nodeToAny(cb); !reflect.DeepEqual(got, any(map[string]any{"app": map[string]any{"name": "n", "port": "80",
+				"rules": []any{map[string]any{"match": "m0", "act": "allow"}, map[string]any{"match": "m1"}}}, "db": map[string]any{"host": "h"}})) {
 				fail = append(fail, fmt.Sprintf("the properties document opened from the manifest is not the tree of its items: %v", got))
 			}
 		}
 		for i, n := 0, 1+r.Intn(6); i < n; i++ {
 			if format == 2 {
 				// incl. a leaf replaced by a subtree (app.port.http over app.port) and a subtree by a leaf (db, app)
-				k := []string{"app.name", "app.port", "db.host", "db.user", "new.key.deep", "x", "app.port.http", "db", "app", "app.port.https.tls"}[r.Intn(10)]
+				k := []string{"app.name", "app.port", "db.host", "db.user", "new.key.deep", "x", "app.port.http", "db", "app", "app.port.https.tls",
+					"app.rules[0].match", "app.rules[0].extra", "new.grp.items[0].id"}[r.Intn(13)] // (index 0 only: a null padding item has no spelling in properties text)
 				if r.Intn(3) == 0 {
 					cb.RemoveAt(k)
 					edits = append(edits, "RemoveAt "+k)
@@ -460,6 +463,12 @@ func c17Embedded(r *rand.Rand, idx int, format int) Case {
 			} else {
 				edits = append(edits, randomEdit(r, cb))
 			}
+		}
+		if format == 2 && r.Intn(6) == 0 { // every pair removed: the saved manifest has no pair left
+			for k := range cb.Children() {
+				cb.Remove(k)
+			}
+			edits = append(edits, "Remove every top-level key")
 		}
 		want = nodeToAny(cb)
 		if format == 1 && r.Intn(5) == 0 {
